@@ -223,7 +223,8 @@ class Unit:
             if txt.count(old) < 1:
                 # the code no longer contains the site this rewrite was written for: go on without it and let the
                 # verifier decide (a non-verification error from Verus then yields UNDECIDED, never VIOLATION)
-                notes.add('LOST-ANCHOR', '@subst `%s`' % old)
+                # [plain]: the rewrite only lowers a construct (no contract text in it); without it the code reaches Verus as written
+                notes.add('LOST-ANCHOR', '@subst `%s`%s' % (old, '' if re.search(r'\b(ensures|requires)\b', new) else ' [plain]'))
                 continue
             txt = txt.replace(old, new)
             notes.add('SUBST', '`%s` => `%s` (%s)' % (old, new, why))
@@ -249,6 +250,7 @@ class Unit:
         txt = apply_rules(txt, rules, notes, self.extra_log_macros)
         txt = self._apply_substs(txt, s, notes)
         txt = _slice_adapters(txt, notes)
+        txt = _tail_continue(txt, notes)
         if 'nametail' in s.args:
             # R23: the tail expression of the function body is bound to a name: `EXPR }` -> `let ret__ = EXPR; ret__ }`
             m2 = mask_text(txt)
@@ -503,6 +505,7 @@ class Unit:
         rules = [r for r in DEFAULT_RULES if r not in (s.opt('skip') or '').split(',')]
         fn_txt = apply_rules(fn_txt, rules, notes, self.extra_log_macros)
         fn_txt = self._apply_substs(fn_txt, s, notes)
+        fn_txt = _tail_continue(fn_txt, notes)
         rewritten = fn_txt
         sub = Section('fn', [rel, name] + [a for a in s.args[2:]], s.lineno)
         sub.subs = [x for x in s.subs if x[0] not in ('from', 'params', 'until', 'continue_as', 'end_expr')]
@@ -616,6 +619,57 @@ def _loops(mask, a, b):
     return res
 
 
+def _tail_continue(txt, notes):
+    """R25: Verus' `for` loops do not support `continue`.  A `continue;` in TAIL position of its (innermost) `for` body - nothing
+    but closing braces and skipped `else` branches between it and the end of the loop body - is a no-op and is commented out"""
+    while True:
+        mask = mask_text(txt)
+        all_loops = [(l[0], l[1], match_close(mask, l[1])) for l in _loops(mask, 0, len(mask))]
+        done = True
+        for off in kw_iter(mask, 'continue', 0, len(mask)):
+            semi = _next_sig(mask, off + len('continue'))
+            if semi >= len(mask) or mask[semi] != ';':
+                continue        # labelled continue: left alone
+            encl = [l for l in all_loops if l[1] < off < l[2]]
+            if not encl:
+                continue
+            lstart, lopen, lclose = max(encl, key=lambda l: l[1])
+            if mask[lstart:lstart + 3] != 'for':
+                continue
+            j = semi + 1
+            tail = True
+            while True:
+                j = _next_sig(mask, j)
+                if j >= lclose:
+                    break
+                if mask[j] == '}' or mask[j] == ';':
+                    j += 1
+                    continue
+                if mask.startswith('else', j) and not (mask[j + 4].isalnum() or mask[j + 4] == '_'):
+                    k = j + 4
+                    depth = 0
+                    while k < lclose and not (mask[k] == '{' and depth == 0):
+                        if mask[k] in '([':
+                            depth += 1
+                        elif mask[k] in ')]':
+                            depth -= 1
+                        k += 1
+                    if k >= lclose:
+                        tail = False
+                        break
+                    j = match_close(mask, k) + 1
+                    continue
+                tail = False
+                break
+            if tail:
+                txt = txt[:off] + '/* R25: continue; */' + txt[semi + 1:]
+                notes.add('R25', '`continue;` in tail position of a `for` body commented out (a no-op there; Verus for-loops do not support continue)')
+                done = False
+                break
+        if done:
+            return txt
+
+
 def _slice_adapters(txt, notes):
     """R6s: `X.as_slice().skip(n)` / `.take(n)` (an iterator parameter was replaced by the slice it iterates, so
     iterator adapters at the call site become sub-slices) => vf_slice_skip / vf_slice_take (shims/iter.rs)"""
@@ -684,6 +738,15 @@ def _locate(txt, anc, nth, start, notes, what):
         if len(pre) >= 6 and txt.count(pre, start) == 1:
             notes.add('ANCHOR-RELAXED', '%s `%s` matched by its call prefix `%s`' % (what, anc, pre))
             return txt.find(pre, start)
+    # the statement was re-wrapped over several lines (rustfmt): compare with all whitespace removed
+    if nth == 1:
+        idx = [i for i in range(start, len(txt)) if not txt[i].isspace()]
+        comp = ''.join(txt[i] for i in idx)
+        for cand, how in ((''.join(anc.split()), 'ignoring whitespace'),
+                          (''.join(anc[:anc.index('(') + 1].split()) if '(' in anc else None, 'by its call prefix, ignoring whitespace')):
+            if cand and len(cand) >= 6 and comp.count(cand) == 1:
+                notes.add('ANCHOR-RELAXED', '%s `%s` matched %s' % (what, anc, how))
+                return idx[comp.find(cand)]
     return -1
 
 
@@ -783,7 +846,32 @@ def weave(txt, s, notes, canary=False):
                 ls = txt.rfind('\n', 0, pos) + 1
                 inserts.append((ls, body + '\n'))
             else:
-                le = txt.find('\n', pos)
+                # after the STATEMENT the anchor starts (it may be wrapped over several lines): up to its `;` at depth 0, or
+                # to the `{` of the block it opens; then to the end of that line
+                depth = 0
+                j = pos
+                while j < body_close:
+                    c = mask[j]
+                    if c in '([':
+                        depth += 1
+                    elif c in ')]':
+                        depth -= 1
+                        if depth < 0:
+                            break           # the anchor sits inside an enclosing expression: fall back to its own line
+                    elif c == '{':
+                        if depth == 0:
+                            break
+                        depth += 1
+                    elif c == '}':
+                        if depth == 0:
+                            break
+                        depth -= 1
+                    elif c == ';' and depth == 0:
+                        break
+                    j += 1
+                if depth < 0 or j >= body_close or mask[j] == '}':
+                    j = pos
+                le = txt.find('\n', j)
                 inserts.append((le + 1, body + '\n'))
         elif name == 'closure':
             k = int(arg.split()[0])
